@@ -94,6 +94,8 @@ def make_param(eng, kind, hint):
         return make_model(eng, kind.split(":", 1)[1], hint, fresh_empty=True)
     if kind in ("real", "int", "bool", "label", "key"):
         return eng.fresh(kind, hint)
+    if kind == "labelkey":         # a tuple of labels of unknown length (varargs given as *key)
+        return eng.fresh("key", hint)
     if kind == "bassign":
         return AssignVal("bool")
     if kind == "sassign":
